@@ -1,11 +1,18 @@
 #!/bin/sh
-# usage: seedtest.sh <patch> <check ids...> : applies a seeded change to /repo, runs the checks, reverts
+# usage: seedtest.sh <patch> <check ids...>
+# Evaluates the quick checks on a scratch worktree of /repo carrying a seeded change.  /repo itself and
+# /verif/evidence are not touched (VERIF_REPO/VERIF_WORK redirect builds, work files and evidence).
 patch="$1"; shift
-cd /repo && git diff --quiet || { echo "repo dirty"; exit 2; }
-git -C /repo apply "$patch" || { echo "patch does not apply"; exit 2; }
+wt=/tmp/verif-seed-wt
+wk=/tmp/verif-seed-work
+git -C /repo worktree remove --force $wt 2>/dev/null
+rm -rf $wt
+git -C /repo worktree add -q --detach $wt HEAD || exit 2
+git -C $wt apply "$patch" || { echo "patch does not apply"; git -C /repo worktree remove --force $wt; exit 2; }
+mkdir -p $wk
 for c in "$@"; do
   echo "=== $c on $(basename $(dirname $patch))"
-  (cd /verif && ./check $c 2>&1 | grep -E "VIOLATION|KNOWN|TOOL-ERROR|quick:|clause=" | head -12)
+  (cd /verif && VERIF_REPO=$wt VERIF_WORK=$wk ./check $c 2>&1 | grep -E "VIOLATION|KNOWN|TOOL-ERROR|quick:|clause=" | head -12)
 done
-git -C /repo checkout -- .
-git -C /repo status --short | head -3
+git -C /repo worktree remove --force $wt
+rm -rf $wk/C* $wk/evidence
